@@ -228,6 +228,15 @@ pub fn compare_state(rig: &mut Rig, r: &mut RefCpu, addrs: &mut dyn Iterator<Ite
     if rig.sim.psr().get() != r.psr {
         return Err(format!("{what}: PSR = x{:04X}, reference x{:04X}", rig.sim.psr().get(), r.psr));
     }
+    {
+        // the PSR's field accessors agree with its bits
+        let p = rig.sim.psr();
+        let got = (p.privileged(), p.priority(), p.cc(), p.is_n(), p.is_z(), p.is_p());
+        let want = (r.psr & 0x8000 == 0, ((r.psr >> 8) & 7) as u8, (r.psr & 7) as u8, r.psr & 4 != 0, r.psr & 2 != 0, r.psr & 1 != 0);
+        if got != want {
+            return Err(format!("{what}: PSR x{:04X} reports (privileged, priority, cc, n, z, p) = {got:?}, its bits say {want:?}", r.psr));
+        }
+    }
     let ssp = read_saved_sp(rig, r);
     if ssp != r.saved_sp {
         return Err(format!("{what}: saved SP = x{ssp:04X}, reference x{:04X}", r.saved_sp));
